@@ -9,7 +9,7 @@ Lemma step_assoc sess me r alt nd a res :
   is_assoc_role r = true -> AInv sess a ->
   thread_step me r alt nd a (get_thr a r) = res ->
   match res with
-  | Ok (nd', a', t') => AInv sess (set_thr a' r t') /\ node_frame nd nd'
+  | Ok (nd', a', t') => (AInv sess (set_thr a' r t') /\ delta me r a nd nd' (set_thr a' r t')) /\ node_frame nd nd'
   | Blocked => True
   | Panic site => cclosed (n_pcd nd) = true /\ site = "send on closed channel"%string
   end.
@@ -100,7 +100,7 @@ Proof.
     pose proof (step_assoc se (N.of_nat i) r alt (s_node s) a _ Er Ha eq_refl) as Hstep.
     destruct (thread_step (N.of_nat i) r alt (s_node s) a (get_thr a r)) as [[[nd' a'] t']| |site];
       try discriminate; injection H as <-; unfold GInv; cbn.
-    + destruct Hstep as [Hi _]. eapply Forall2_upd; eauto.
+    + destruct Hstep as [[Hi _] _]. eapply Forall2_upd; eauto.
     + exact Hg.
 Qed.
 
@@ -196,6 +196,7 @@ Record NS (s : state) : Prop := {
   ns_thr : n_thr (s_node s) = thr0 TRunning FNode;
   ns_stop : n_stop (s_node s) = thr0 TNotStarted FStop;
   ns_main : n_main (s_node s) = false;
+  ns_lsock : n_lsock (s_node s) = false;
   ns_env : no_stop (s_env s) }.
 
 Lemma no_stop_remove ev k : no_stop ev -> no_stop (remove_nth ev k).
@@ -222,7 +223,7 @@ Proof. intros H. constructor; cbn; auto. Qed.
 
 Lemma ns_step cfg s l s' : GInv cfg s -> NS s -> step s l = Some s' -> NS s'.
 Proof.
-  intros Hg [Hp Hc Hd Ht Hs Hm He] H. unfold step in H. unfold dead in H. rewrite Hp, Hm in H.
+  intros Hg [Hp Hc Hd Ht Hs Hm Hl He] H. unfold step in H. unfold dead in H. rewrite Hp, Hm in H.
   destruct l as [k|alt| |i r alt].
   - destruct (nth_error (s_env s) k) as [e|] eqn:Ek; [|discriminate]. injection H as <-.
     destruct (apply_env_node s e (no_stop_nth _ _ _ He Ek)) as (Hn & _ & _).
@@ -254,7 +255,7 @@ Proof.
   { unfold run. apply (run_inv state tid step (fun s => GInv cfg s /\ NS s)).
     - intros s l s' [Hg Hn] Hs. split; [eapply ginv_step; eauto | eapply ns_step; eauto].
     - split; [apply ginv_init | apply ns_init; exact Hns]. }
-  destruct H as [_ [Hp _ _ _ _ _ _]]. exact Hp.
+  destruct H as [_ [Hp _ _ _ _ _ _ _]]. exact Hp.
 Qed.
 
 (* with or without Stop: the only panic the system can ever raise comes from a send on the closed pConnDone
@@ -296,7 +297,7 @@ Proof.
   assert (H : P (run (init cfg ev) sch)).
   { unfold run. apply (run_inv state tid step P).
     - intros s l s' [[Hg Hn] [Hj Hun]] Hs. split; [split; [eapply ginv_step; eauto | eapply ns_step; eauto]|].
-      pose proof Hn as [Hp Hcx _ _ Hst Hm _].
+      pose proof Hn as [Hp Hcx _ _ Hst Hm _ _].
       unfold step in Hs. unfold dead in Hs. rewrite Hp, Hm in Hs.
       destruct l as [k|alt| |i r alt].
       + destruct (nth_error (s_env s) k) as [e|] eqn:Ek; [|discriminate]. injection Hs as <-. cbn. split.
